@@ -28,7 +28,7 @@ impl TraitHandler for OrdEnumHandler {
 
         let mut cmp_token_stream = proc_macro2::TokenStream::new();
 
-        let discriminant_type = DiscriminantType::from_ast(ast)?;
+        let discriminant_cmp = DiscriminantType::cmp_token_stream(ast)?;
 
         let mut arms_token_stream = proc_macro2::TokenStream::new();
 
@@ -208,12 +208,6 @@ impl TraitHandler for OrdEnumHandler {
         if arms_token_stream.is_empty() {
             cmp_token_stream.extend(quote!(::core::cmp::Ordering::Equal));
         } else {
-            let discriminant_cmp = quote! {
-                unsafe {
-                    ::core::cmp::Ord::cmp(&*<*const _>::from(self).cast::<#discriminant_type>(), &*<*const _>::from(other).cast::<#discriminant_type>())
-                }
-            };
-
             cmp_token_stream.extend(if all_unit {
                 quote! {
                     match #discriminant_cmp {
